@@ -1,0 +1,71 @@
+//go:build verif
+
+// Contracts for the point encoders of this curve (comment-only; installed by /verif/gcv gen-contracts). The layout
+// is stated from the format, not read from the code: a point is written as its X coordinate (and, in raw form, its Y
+// coordinate after it), a coordinate as its base-field components in descending order (Fp2: A1 then A0; Fp4: B1.A1,
+// B1.A0, B0.A1, B0.A0), each component as one big-endian field element in consecutive windows of fp.Bytes bytes.
+// Under contract: the point at infinity (both coordinates zero, as IsZero reports) is the flag byte followed by
+// zeros and no coordinate is written; otherwise every window receives exactly the component the format assigns to it,
+// each exactly once (PutElement is an opaque call that overwrites the result array), and the first byte is then the
+// first byte the codec wrote with the flag or-ed in: compressed forms carry the "largest" flag exactly when
+// LexicographicallyLargest reported true for Y. That the codec writes the big-endian regular form of the component is
+// its own contract (C08); that the flag bits do not collide with the bits of X is arithmetic on the modulus.
+
+package starkcurve
+
+//@ func G1Affine.Bytes
+//@ layer ring fp.Element
+//@ option opaque-calls
+//@ option opaque-writes PutElement:1
+//@ option nomerge
+//@ ghost zx = false
+//@ ghost zy = false
+//@ ghost lex = false
+//@ ghost n = 0
+//@ ghost seen = 0
+//@ ghost b0 = 0
+//@ cut after call IsZero #1
+//@ + ghost zx = callresult
+//@ cut after call IsZero #2
+//@ + ghost zy = callresult
+//@ cut after call LexicographicallyLargest #1
+//@ + ghost lex = callresult
+//@ cut before call PutElement #*
+//@ + invariant[layout] samebase(callarg1, res) && ((winoff(callarg1) == 0*fp.Bytes && callarg2 == p.X))
+//@ cut after call PutElement #*
+//@ + ghost seen = seen + ite(winoff(callarg1) == 0*fp.Bytes, 1, 0)
+//@ + ghost n = n + 1
+//@ + ghost b0 = res[0]
+//@ ensures[infinity] zx && zy ==> n == 0 && res[0] == mCompressedInfinity && forall(j, 1, SizeOfG1AffineCompressed, res[j] == 0)
+//@ ensures[every-coordinate-once] !(zx && zy) ==> n == 1 && seen == 1
+//@ ensures[flag-largest] !(zx && zy) && lex ==> res[0] == bor8(b0, mCompressedLargest)
+//@ ensures[flag-smallest] !(zx && zy) && !lex ==> res[0] == bor8(b0, mCompressedSmallest)
+//@ modifies nothing
+//@ end
+
+//@ func G1Affine.RawBytes
+//@ layer ring fp.Element
+//@ option opaque-calls
+//@ option opaque-writes PutElement:1
+//@ option nomerge
+//@ ghost zx = false
+//@ ghost zy = false
+//@ ghost lex = false
+//@ ghost n = 0
+//@ ghost seen = 0
+//@ ghost b0 = 0
+//@ cut after call IsZero #1
+//@ + ghost zx = callresult
+//@ cut after call IsZero #2
+//@ + ghost zy = callresult
+//@ cut before call PutElement #*
+//@ + invariant[layout] samebase(callarg1, res) && ((winoff(callarg1) == 0*fp.Bytes && callarg2 == p.X) || (winoff(callarg1) == 1*fp.Bytes && callarg2 == p.Y))
+//@ cut after call PutElement #*
+//@ + ghost seen = seen + ite(winoff(callarg1) == 0*fp.Bytes, 1, ite(winoff(callarg1) == 1*fp.Bytes, 2, 0))
+//@ + ghost n = n + 1
+//@ + ghost b0 = res[0]
+//@ ensures[infinity] zx && zy ==> n == 0 && res[0] == mUncompressed && forall(j, 1, SizeOfG1AffineUncompressed, res[j] == 0)
+//@ ensures[every-coordinate-once] !(zx && zy) ==> n == 2 && seen == 3
+//@ ensures[flag] !(zx && zy) ==> res[0] == bor8(b0, mUncompressed)
+//@ modifies nothing
+//@ end
